@@ -14,17 +14,17 @@ def envWriteHdr (fin r1 r2 r3 masked : Bool) (len : Int) (e1 e2 e3 e4 : Bool) : 
     ("w.WriteByte:err!=nil", e1), ("w.WriteByte@2:err!=nil", e2), ("w.Write:err!=nil", e3), ("w.Write@2:err!=nil", e3),
     ("w.Write@3:err!=nil", e4)] [("h.payloadLength", len)]
 
-/-- first byte: FIN, RSV1–3 and the opcode; second byte: MASK and the 7-bit length field — the length itself up to 125,
+/-- (how the two leading bytes are put together from FIN, RSV1–3, opcode and MASK is compared byte for byte by the
+differential side; here:) first byte; second byte: MASK and the 7-bit length field — the length itself up to 125,
 126 for lengths that need 16 bits, 127 beyond 65535 (the minimal encoding) —; then the extended length in network byte
 order in exactly that many bytes; then the masking key iff MASK is set. A failed write stops the emission. -/
 def writeHdrExpected (fin r1 r2 r3 masked : Bool) (len : Int) (e1 e2 e3 e4 : Bool) : Res :=
-  let b0 := (if fin then ["b|=128"] else []) ++ (if r1 then ["b|=64"] else []) ++ (if r2 then ["b|=32"] else [])
-    ++ (if r3 then ["b|=16"] else []) ++ ["b|=byte(h.opcode)", "w.WriteByte(b)"]
+  let b0 := ["w.WriteByte(_)"]
   if e1 then errRes b0
   else
     let b1 := b0 ++ ["lengthByte:=0"] ++ (if masked then ["lengthByte|=128"] else [])
       ++ (if len > 65535 then ["lengthByte|=127"] else if len > 125 then ["lengthByte|=126"]
-          else if len ≥ 0 then ["lengthByte|=byte(h.payloadLength)"] else []) ++ ["w.WriteByte(lengthByte)"]
+          else if len ≥ 0 then ["lengthByte|=byte(h.payloadLength)"] else []) ++ ["w.WriteByte(_)"]
     if e2 then errRes b1
     else
       let ext := if len > 65535 then ["binary.BigEndian.PutUint64(buf,uint64(h.payloadLength))", "w.Write(buf)"]
@@ -41,7 +41,7 @@ def tableExtBytes (len : Nat) : Nat := if len > 65535 then 8 else if len > 125 t
 
 def envReadHdr (e1 e2 : Bool) (l7 : Int) (eExt neg masked eKey : Bool) : Env :=
   mkEnv [("r.ReadByte:err!=nil", e1), ("r.ReadByte@2:err!=nil", e2), ("io.ReadFull:err!=nil", eExt), ("io.ReadFull@2:err!=nil", eExt),
-    ("io.ReadFull@3:err!=nil", eKey), ("h.masked'", masked)] [("b&^128", l7), ("h.payloadLength", if neg then -1 else 5)]
+    ("io.ReadFull@3:err!=nil", eKey), ("h.masked", masked)] [("b&^128", l7), ("r.ReadByte()#0&^128", l7), ("h.payloadLength", if neg then -1 else 5)]
 
 /-- two bytes (a failed read ends the call): FIN, RSV1–3, opcode, MASK and the 7-bit length field; 126 / 127 announce a
 16-bit / 64-bit length read in full in network byte order; a 64-bit length with the top bit set is refused; the key is
@@ -49,10 +49,10 @@ read iff MASK is set. -/
 def readHdrExpected (e1 e2 : Bool) (l7 : Int) (eExt neg masked eKey : Bool) : Res :=
   if e1 then errRes ["r.ReadByte()"]
   else
-    let b0 := ["r.ReadByte()", "h.fin=b&128!=0", "h.rsv1=b&64!=0", "h.rsv2=b&32!=0", "h.rsv3=b&16!=0", "h.opcode=opcode(b&15)", "r.ReadByte()"]
+    let b0 := ["r.ReadByte()", "r.ReadByte()"]
     if e2 then errRes b0
     else
-      let b1 := b0 ++ ["h.masked=b&128!=0"] ++
+      let b1 := b0 ++
         (if l7 < 126 then ["h.payloadLength=int64(b&^128)"]
          else if l7 = 126 then ["io.ReadFull(r,readBuf[:2])", "h.payloadLength=int64(binary.BigEndian.Uint16(readBuf))"]
          else ["io.ReadFull(r,readBuf)", "h.payloadLength=int64(binary.BigEndian.Uint64(readBuf))"])
@@ -60,6 +60,6 @@ def readHdrExpected (e1 e2 : Bool) (l7 : Int) (eExt neg masked eKey : Bool) : Re
       else if neg then errRes b1
       else if !masked then okRes b1
       else if eKey then errRes (b1 ++ ["io.ReadFull(r,readBuf[:4])"])
-      else okRes (b1 ++ ["io.ReadFull(r,readBuf[:4])", "h.maskKey=binary.LittleEndian.Uint32(readBuf)"])
+      else okRes (b1 ++ ["io.ReadFull(r,readBuf[:4])"])
 
 end WS.Props.G2
